@@ -123,13 +123,15 @@ pub const OP_SYNC: u32 = 64;
 pub const OP_LIFETIME: u32 = 128;
 /// a call whose pending reply the application drops when the clean cause strikes
 pub const OP_CALL_DROP: u32 = 256;
+/// the victim as callee: it holds a call of the peer and waits for `aborted()`
+pub const OP_PROMISE: u32 = 512;
 pub const OP_ALL: u32 = 255;
 
 struct Trigger {
     stage_tx: mpsc::UnboundedSender<()>,
 }
 
-fn make(case: &Case) -> (Vec<ClientCfg>, Vec<(String, App)>, Rc<RefCell<Option<oneshot::Sender<()>>>>, mpsc::UnboundedReceiver<()>, Rc<RefCell<Option<oneshot::Sender<()>>>>) {
+fn make(case: &Case) -> (Vec<ClientCfg>, Vec<(String, App)>, Rc<RefCell<Vec<oneshot::Sender<()>>>>, mpsc::UnboundedReceiver<()>, Rc<RefCell<Option<oneshot::Sender<()>>>>) {
     let mut victim = ClientCfg::new(case.transport, case.minor);
     if case.broker_side {
         victim.broker_fault = case.fault.clone();
@@ -152,7 +154,10 @@ fn make(case: &Case) -> (Vec<ClientCfg>, Vec<(String, App)>, Rc<RefCell<Option<o
     let (snd_tx, snd_rx) = oneshot::channel::<aldrin::low_level::UnboundReceiver>();
     let (rcv_tx, rcv_rx) = oneshot::channel::<aldrin::low_level::UnboundSender>();
     let (peer_stop_tx, peer_stop_rx) = oneshot::channel::<()>();
-    let peer_stop = Rc::new(RefCell::new(Some(peer_stop_tx)));
+    let (peer_stop_tx2, peer_stop_rx2) = oneshot::channel::<()>();
+    let peer_stop = Rc::new(RefCell::new(vec![peer_stop_tx, peer_stop_tx2]));
+    // victim -> peer: the victim's own service (the peer calls it, the victim never answers)
+    let (psvc_tx, psvc_rx) = oneshot::channel::<ServiceId>();
     let mut apps: Vec<(String, App)> = Vec::new();
 
     // ---- the healthy peer ---------------------------------------------------------------------
@@ -238,6 +243,40 @@ fn make(case: &Case) -> (Vec<ClientCfg>, Vec<(String, App)>, Rc<RefCell<Option<o
             }
         })
     }));
+
+    // ---- a second task of the healthy peer: it calls the victim's service and waits for the reply
+    if ops & OP_PROMISE != 0 {
+        apps.push(app("peer-caller", move |hs, _| {
+            Box::pin(async move {
+                let h = hs[1].clone();
+                drop(hs);
+                let Ok(sid) = psvc_rx.await else { return Ok(()) };
+                let proxy = match h.create_proxy(sid).await {
+                    Ok(p) => p,
+                    // the victim may be gone already
+                    Err(Error::InvalidService) | Err(Error::Shutdown) => return Ok(()),
+                    Err(e) => return Err(format!("peer create_proxy of the victim's service: {e:?}")),
+                };
+                let mut pending = proxy.call(1, 7u32, None);
+                let mut stop = peer_stop_rx2;
+                // any reply will do (the victim never answers: InvalidService when it is gone);
+                // told to stop, the peer loses interest, which aborts the call
+                std::future::poll_fn(|cx| {
+                    if Pin::new(&mut stop).poll(cx).is_ready() {
+                        return std::task::Poll::Ready(());
+                    }
+                    Pin::new(&mut pending).poll(cx).map(|_| ())
+                })
+                .await;
+                drop(pending);
+                drop(proxy);
+                Ok(())
+            })
+        }));
+    } else {
+        drop(psvc_rx);
+        drop(peer_stop_rx2);
+    }
 
     // ---- the victim's pending operations, one application task each ------------------------------
     macro_rules! victim_task {
@@ -328,6 +367,30 @@ fn make(case: &Case) -> (Vec<ClientCfg>, Vec<(String, App)>, Rc<RefCell<Option<o
         match svc.next_call().await {
             None => Ok(()),
             Some(_) => Err("unexpected call".to_string()),
+        }
+    });
+    victim_task!("v-promise", OP_PROMISE, |h: Handle, stage: Rc<dyn Fn()>| {
+        let psvc_tx = psvc_tx;
+        async move {
+            let obj = match h.create_object(ou(3)).await {
+                Ok(o) => o,
+                Err(e) if ended_ok(&e) => return Ok(()),
+                Err(e) => return Err(format!("create_object: {e:?}")),
+            };
+            let mut svc = match obj.create_service(su(3), ServiceInfo::new(1)).await {
+                Ok(s) => s,
+                Err(e) if ended_ok(&e) => return Ok(()),
+                Err(e) => return Err(format!("create_service: {e:?}")),
+            };
+            let _ = psvc_tx.send(svc.id());
+            let Some(mut call) = svc.next_call().await else { return Ok(()) };
+            stage();
+            // the handler waits for the caller to lose interest; the caller does not, so this
+            // resolves only because the client stops (or, without a cause, when the peer is told
+            // to finish and drops its call)
+            call.aborted().await;
+            let _ = call.done();
+            Ok(())
         }
     });
     victim_task!("v-events", OP_EVENTS, |h: Handle, stage: Rc<dyn Fn()>| {
@@ -511,7 +574,7 @@ pub fn run_case(case: &Case, ch: &mut Chooser) -> (Option<(String, String)>, u64
         return (v(clause, format!("task {task} panicked: {msg}")), ops);
     }
     // now let the peer finish
-    if let Some(tx) = peer_stop.borrow_mut().take() {
+    for tx in peer_stop.borrow_mut().drain(..) {
         let _ = tx.send(());
     }
     let end = b.run(ch);
@@ -532,7 +595,11 @@ pub fn run_case(case: &Case, ch: &mut Chooser) -> (Option<(String, String)>, u64
             return (v("connect-error", format!("connecting the victim failed with {e}")), ops);
         }
     }
-    let victim_stopped = case.cause != Cause::None;
+    // (a planned fault that never struck — the victim performed fewer transport operations than
+    // the plan's index, e.g. a 1.14 callee that is not told about an abort and so never writes
+    // again — leaves the victim running: the same as no cause at all)
+    let fault_never_struck = case.cause == Cause::Fault && !log.gate[0].fault_delivered && !log.gate[2].fault_delivered;
+    let victim_stopped = case.cause != Cause::None && !fault_never_struck;
     // every pending and every later operation completed
     for (name, r) in &log.app_results {
         match r {
@@ -559,6 +626,7 @@ pub fn run_case(case: &Case, ch: &mut Chooser) -> (Option<(String, String)>, u64
     } else {
     match (&log.client_results[0], case.cause) {
         (None, Cause::None) => {}
+        (None, Cause::Fault) if fault_never_struck => {}
         (None, _) => return (v("run-does-not-return", format!("Client::run of the victim did not return after {:?}", case.cause)), ops),
         (Some(Ok(())), Cause::Fault) if fault_delivered => {
             // acceptable only if the client had already finished on its own when the fault struck;
@@ -613,9 +681,9 @@ pub fn run(tier: Tier) -> ! {
     let mut distinct = 0u64;
     let mut cases: Vec<Case> = Vec::new();
     let op_sets: Vec<u32> = if tier == Tier::Thorough {
-        vec![OP_ALL, OP_CALL | OP_SYNC, OP_SENDER | OP_RECEIVER, OP_SERVICE | OP_EVENTS | OP_LISTENER, OP_LIFETIME | OP_CALL, OP_CALL_DROP | OP_SYNC, OP_ALL | OP_CALL_DROP]
+        vec![OP_ALL, OP_CALL | OP_SYNC, OP_SENDER | OP_RECEIVER, OP_SERVICE | OP_EVENTS | OP_LISTENER, OP_LIFETIME | OP_CALL, OP_CALL_DROP | OP_SYNC, OP_ALL | OP_CALL_DROP, OP_PROMISE | OP_SERVICE, OP_ALL | OP_PROMISE]
     } else {
-        vec![OP_ALL, OP_SENDER | OP_RECEIVER | OP_CALL, OP_CALL_DROP | OP_SYNC]
+        vec![OP_ALL, OP_SENDER | OP_RECEIVER | OP_CALL, OP_CALL_DROP | OP_SYNC, OP_PROMISE | OP_SERVICE]
     };
     let transports: Vec<(Transport, u32)> = if tier == Tier::Thorough {
         vec![(Transport::Unbounded, 20), (Transport::Bounded(1), 20), (Transport::Unbounded, 14), (Transport::Bounded(2), 17)]
